@@ -1330,6 +1330,8 @@ def _parse_einsum_input(operands):
 
     # Make sure output subscripts are in the input
     for char in output_subscript:
+        if output_subscript.count(char) != 1:
+            raise ValueError(f"Output character {char} appeared more than once in the output.")
         if char not in input_subscripts:
             raise ValueError(f"Output character {char} did not appear in the input")
 
